@@ -2,3 +2,131 @@
 pub(crate) use super::execution::verif_kani::{exec_with, exec_with_path};
 pub(crate) use super::scheduler::verif_kani::{switch_counting_model, with_ctx, SWITCHES};
 pub(crate) use super::thread::verif_kani::{any_set, fixed_random_state, zero_set};
+
+// ================================================================================================
+// Contracts for the free functions of `rt` (park, yield_now, branch, synchronize)
+// ================================================================================================
+use super::*;
+use crate::rt::execution::verif_kani::{schedule_calls, schedule_saw};
+use crate::rt::scheduler::verif_kani::SWITCHES as SW;
+use crate::rt::thread::verif_kani::*;
+use crate::rt::vv::verif_kani::{eq as vv_eq, is_inc};
+use crate::{oblige, reach};
+use std::mem::ManuallyDrop;
+
+fn switches() -> u32 {
+    unsafe { SW }
+}
+
+//@ props=C08,C05 tier=quick fns=src/rt/mod.rs::park bounded=threads:N=3 models=Execution::schedule=probe,Scheduler::switch=counting
+#[kani::proof]
+#[kani::unwind(7)]
+#[kani::stub(std::hash::RandomState::new, crate::rt::thread::verif_kani::fixed_random_state)]
+#[kani::stub(crate::rt::execution::Execution::schedule, crate::rt::execution::Execution::schedule_probe_model)]
+#[kani::stub(crate::rt::scheduler::Scheduler::switch, crate::rt::scheduler::verif_kani::switch_counting_model)]
+fn c08_park() {
+    const N: usize = 3;
+    let mut set = any_set(N);
+    any_pending_ops(&mut set, |k| match k {
+        0 => None,
+        _ => Some(crate::rt::object::verif_kani::op_opaque(0)),
+    });
+    let old = set_view(&set);
+    let a = old.active.unwrap();
+    let oa = old.th[a];
+    kani::assume(matches!(oa.st, StView::Runnable { .. }));
+    let mut ex = exec_with(ManuallyDrop::into_inner(set), 4);
+    with_ctx(&mut ex, || park(Location::disabled()));
+    let new = set_view(&ex.threads);
+    let na = new.th[a];
+    if has_token(&oa) {
+        oblige!("C08.park.token_present_returns_immediately_consuming_it",
+            na.st == (StView::Runnable { unparked: false }) && schedule_calls() == 0 && switches() == 0 && th_view_eq_except_state(&oa, &na));
+    } else {
+        oblige!("C08.park.no_token_blocks_with_no_pending_operation", na.st == StView::Blocked && na.op.is_none());
+        oblige!("C08.park.schedules_exactly_once", schedule_calls() == 1 && switches() <= 1);
+        let saw = schedule_saw().unwrap();
+        let sa = saw.th[a];
+        oblige!("C08.park.is_parked_when_it_yields", sa.st == StView::Blocked && sa.op.is_none());
+    }
+    let mut i = 0;
+    while i < N {
+        oblige!("C08.park.frame_other_threads", i == a || th_view_eq(&old.th[i], &new.th[i]));
+        i += 1;
+    }
+    reach!("c08_park");
+}
+
+//@ props=C18 tier=quick fns=src/rt/mod.rs::yield_now bounded=threads:N=3 models=Execution::schedule=probe,Scheduler::switch=counting
+#[kani::proof]
+#[kani::unwind(7)]
+#[kani::stub(std::hash::RandomState::new, crate::rt::thread::verif_kani::fixed_random_state)]
+#[kani::stub(crate::rt::execution::Execution::schedule, crate::rt::execution::Execution::schedule_probe_model)]
+#[kani::stub(crate::rt::scheduler::Scheduler::switch, crate::rt::scheduler::verif_kani::switch_counting_model)]
+fn c18_yield_now() {
+    const N: usize = 3;
+    let mut set = any_set(N);
+    any_pending_ops(&mut set, |k| match k {
+        0 => None,
+        _ => Some(crate::rt::object::verif_kani::op_opaque(0)),
+    });
+    let old = set_view(&set);
+    let a = old.active.unwrap();
+    let oa = old.th[a];
+    kani::assume(oa.yield_count < usize::MAX);
+    let mut ex = exec_with(ManuallyDrop::into_inner(set), 4);
+    with_ctx(&mut ex, || yield_now());
+    let new = set_view(&ex.threads);
+    let na = new.th[a];
+    oblige!("C18.yield_now.marks_yield_and_clears_operation", na.st == StView::Yield && na.op.is_none()
+        && na.yield_count == oa.yield_count + 1 && na.last_yield == Some(crate::rt::vv::verif_kani::get(&oa.causality, a)));
+    oblige!("C18.yield_now.clocks_untouched", vv_eq(&na.causality, &oa.causality) && vv_eq(&na.dpor_vv, &oa.dpor_vv) && vv_eq(&na.released, &oa.released));
+    oblige!("C18.yield_now.schedules_exactly_once", schedule_calls() == 1 && switches() <= 1);
+    let mut i = 0;
+    while i < N {
+        oblige!("C18.yield_now.frame_other_threads", i == a || th_view_eq(&old.th[i], &new.th[i]));
+        i += 1;
+    }
+    reach!("c18_yield_now");
+}
+
+//@ props=C01,C04 tier=quick fns=src/rt/mod.rs::branch,src/rt/mod.rs::synchronize,src/rt/thread.rs::Set::active_causality_inc bounded=threads:N=3 models=Execution::schedule=probe,Scheduler::switch=counting
+#[kani::proof]
+#[kani::unwind(7)]
+#[kani::stub(std::hash::RandomState::new, crate::rt::thread::verif_kani::fixed_random_state)]
+#[kani::stub(crate::rt::execution::Execution::schedule, crate::rt::execution::Execution::schedule_probe_model)]
+#[kani::stub(crate::rt::scheduler::Scheduler::switch, crate::rt::scheduler::verif_kani::switch_counting_model)]
+fn c01_branch_and_synchronize() {
+    const N: usize = 3;
+    let set = any_set(N);
+    assume_incrementable(&set);
+    let old = set_view(&set);
+    let a = old.active.unwrap();
+    let oa = old.th[a];
+    let mut ex = exec_with(ManuallyDrop::into_inner(set), 4);
+    if kani::any() {
+        let mut ran = 0u32;
+        let r = with_ctx(&mut ex, || branch(|_e| { ran += 1; 7u8 }));
+        oblige!("C01.branch.runs_closure_once_then_schedules_once", ran == 1 && r == 7 && schedule_calls() == 1 && switches() <= 1);
+        let new = set_view(&ex.threads);
+        let mut i = 0;
+        while i < N {
+            oblige!("C01.branch.changes_no_thread_itself", th_view_eq(&old.th[i], &new.th[i]));
+            i += 1;
+        }
+    } else {
+        let mut seen = oa.causality;
+        let r = with_ctx(&mut ex, || synchronize(|e| { seen = e.threads.active().causality; 9u8 }));
+        let new = set_view(&ex.threads);
+        let na = new.th[a];
+        oblige!("S.synchronize.ticks_own_component_before_the_operation", r == 9 && is_inc(&seen, &oa.causality, a) && vv_eq(&na.causality, &seen));
+        oblige!("S.synchronize.never_schedules", schedule_calls() == 0 && switches() == 0);
+        let mut i = 0;
+        while i < N {
+            oblige!("S.synchronize.frame_other_threads", i == a || th_view_eq(&old.th[i], &new.th[i]));
+            i += 1;
+        }
+        oblige!("S.synchronize.only_causality_of_active_changes", th_view_eq_except_causality(&oa, &na));
+    }
+    reach!("c01_branch_and_synchronize");
+}
